@@ -69,8 +69,10 @@ ImplAccepted(s, t) == s.impl = "" \/ t.impl \in {s.impl, "py"}
 AbiMatches(s, t, a) ==        \* a concrete ABI must be the python tag's own, and agree with the free-threading flag
   /\ a.impl = t.impl /\ a.major = t.major /\ a.minor = t.minor
   /\ (s.ft # -1 => ((a.flag = "t") = (s.ft = 1)))
-\* outside the statement: abi3 on a non-cp tag or for a free-threaded target
-DontCare(s, t, a) == a.kind = "abi3" /\ (t.impl # "cp" \/ s.ft = 1)
+\* abi3 is CPython's stable ABI: only a cpXY python tag carries it, and a free-threaded interpreter cannot load it
+\* (no interpreter lists pyX-abi3 / ppXY-abi3 among its supported tags: "some admitted Python can load it" is false)
+Abi3Loadable(s, t) == t.impl = "cp" /\ s.ft # 1
+DontCare(s, t, a) == FALSE
 LoadRange(t, a) ==
   IF a.kind = "abi3" THEN FromVersion(t.major, IF t.minor = -1 THEN 0 ELSE t.minor)
   ELSE IF t.minor = -1 THEN MajorFrom(t.major, 0)                     \* pyX: any X.* interpreter
@@ -79,6 +81,7 @@ LoadRange(t, a) ==
 DeclCompatible(rp, s, t, a) ==
   /\ ImplAccepted(s, t)
   /\ (a.kind = "concrete" => AbiMatches(s, t, a))
+  /\ (a.kind = "abi3" => Abi3Loadable(s, t))
   /\ DenR(LoadRange(t, a)) \cap Den(rp) # {}
 DeclScore(t, a) == <<t.major, IF t.minor = -1 THEN 0 ELSE t.minor,
                      CASE a.kind = "concrete" -> 2 [] a.kind = "abi3" -> 1 [] OTHER -> 0>>
